@@ -104,6 +104,7 @@ pub struct Entry {
     pub fetch_issued: bool,
     pub fetch_reply: Option<Result<StoreKind, ()>>,
     pub fetch_reply_step: Option<u64>,
+    pub fetch_reply_seq: Option<u64>,
     /// Start of the MPP wait.
     pub wait_start_ms: Option<u64>,
     /// Expected time left at wait start (ms), when known.
@@ -115,6 +116,8 @@ pub struct Entry {
     pub attempt_started: bool,
     pub pay_issued: bool,
     /// Snapshot at marker write: (min expiry lenient bound, told_low).
+    /// Handler order within a delivery step is not determined (yield injection).
+    pub order_ambiguous: bool,
     pub snap: Option<(u32, u32)>,
     /// (exact minimum expiry, HTLCs of other hashes were held) when unambiguous.
     pub snap_exact: Option<(u32, bool)>,
@@ -462,12 +465,14 @@ impl Oracles {
                     fetch_issued: false,
                     fetch_reply: None,
                     fetch_reply_step: None,
+                    fetch_reply_seq: None,
                     wait_start_ms: None,
                     time_left_ms: None,
                     timing_ambiguous: false,
                     marker_issued: false,
                     attempt_started: false,
                     pay_issued: false,
+                    order_ambiguous: false,
                     snap: None,
                     snap_exact: None,
                     restart_path: false,
@@ -515,6 +520,18 @@ impl Oracles {
                     e.doomed = Some((msg, w.step, why));
                 }
             }
+        }
+        // With yield injection at the table lock, handlers of HTLCs delivered in
+        // the same step may run in either order: what the reference derives
+        // from arrival order (which rejection came first, funded before or
+        // after it) is then not determined.
+        if cfg.f_yield > 0
+            && e
+                .members
+                .iter()
+                .any(|m| w.node.calls[*m].delivered_step == Some(w.step))
+        {
+            e.order_ambiguous = true;
         }
         e.members.push(ci);
         e.sum += amount as u128;
@@ -582,6 +599,22 @@ impl Oracles {
                 ),
             );
         }
+        if matches!(
+            kind,
+            RpcKind::MarkFailedAttempt
+                | RpcKind::MarkFailedFree
+                | RpcKind::MarkSucceededState
+                | RpcKind::MarkSucceededAttempt
+        ) {
+            if let Some(e) = self.entries.get_mut(&x) {
+                if e.fetch_reply.is_none() {
+                    // Cannot come from this entry's lifecycle: an older one is
+                    // still doing its bookkeeping.
+                    e.timing_ambiguous = true;
+                    *self.reach.entry("entry.old-lifecycle-bookkeeping-issued-later").or_insert(0) += 1;
+                }
+            }
+        }
         match kind {
             RpcKind::Fetch => {
                 if let Some(e) = self.entries.get_mut(&x) {
@@ -603,7 +636,7 @@ impl Oracles {
 
     fn on_marker_issued(&mut self, w: &World, _ri: usize, x: &H32, is_marker: bool) {
         // Snapshot for C04: lenient bound on the minimum expiry the plugin saw.
-        let mut min_earlier = u32::MAX;
+        let mut min_earlier: Option<u32> = None;
         let mut max_this_step: Option<u32> = None;
         for ci in Self::held_for(w, x) {
             let c = &w.node.calls[ci];
@@ -611,19 +644,30 @@ impl Oracles {
             if c.delivered_step == Some(w.step) {
                 max_this_step = Some(max_this_step.map(|m| m.max(exp)).unwrap_or(exp));
             } else {
-                min_earlier = min_earlier.min(exp);
+                min_earlier = Some(min_earlier.map(|m| m.min(exp)).unwrap_or(exp));
             }
         }
-        let bound = match max_this_step {
-            Some(m) => min_earlier.min(m),
-            None => min_earlier,
+        // In a plain Deliver step the attempt was triggered by one of the HTLCs
+        // delivered in it, so the plugin saw at least one of them. In a
+        // multi-operation step the trigger may have been an RPC reply: then
+        // only the HTLCs of earlier steps are certain.
+        let bound = match (min_earlier, max_this_step) {
+            (Some(e), Some(m)) if w.op_kind != "multi" => e.min(m),
+            (Some(e), _) => e,
+            (None, Some(m)) => m,
+            (None, None) => u32::MAX,
         };
-        let told_low = w.told_low;
+        let told_low = w.told_low_step_start;
         // Exact minimum, when at most one HTLC of this hash arrived in this step.
         let this_step = Self::held_for(w, x)
             .filter(|ci| w.node.calls[*ci].delivered_step == Some(w.step))
             .count();
-        let exact = if this_step <= 1 && w.told_low == w.told_all && !w.cfg.backpressure {
+        let exact = if this_step <= 1
+            && (this_step == 0 || w.op_kind != "multi")
+            && w.told_low == w.told_all
+            && w.told_low_step_start == w.told_all
+            && !w.cfg.backpressure
+        {
             Some(bound)
         } else {
             None
@@ -642,7 +686,7 @@ impl Oracles {
             e.attempt_started = true;
             e.snap = Some((bound, told_low));
             e.snap_exact = exact.map(|m| (m, others_held));
-            if !e.funded && e.doomed.is_none() {
+            if !e.funded && e.doomed.is_none() && !e.order_ambiguous {
                 let (sum, amt) = (e.sum, e.amount_msat);
                 self.violate(
                     w,
@@ -662,7 +706,7 @@ impl Oracles {
                 *self.reach.entry("c12.readiness-checked").or_insert(0) += 1;
             }
             // C12c / C07: a doomed set never starts paying.
-            if e.doomed.is_some() {
+            if e.doomed.is_some() && !e.order_ambiguous {
                 let why = e.doomed.as_ref().unwrap().2;
                 self.violate(
                     w,
@@ -1094,6 +1138,7 @@ impl Oracles {
             match kind {
                 RpcKind::Fetch if e.fetch_reply.is_none() => {
                     e.fetch_reply_step = Some(w.step);
+                    e.fetch_reply_seq = Some(w.node.seq);
                     if is_err {
                         e.fetch_reply = Some(Err(()));
                     } else if let SimReply::Result(v) = reply {
@@ -1114,7 +1159,12 @@ impl Oracles {
                         e.fetch_reply = Some(Ok(kind));
                     }
                 }
-                RpcKind::MarkFailedFree if e.restart_path && !e.restart_wait_done && !e.attempt_started => {
+                RpcKind::MarkFailedFree
+                    if e.restart_path
+                        && !e.restart_wait_done
+                        && !e.attempt_started
+                        && e.fetch_reply_seq.map(|q| r.issued_seq > q).unwrap_or(false) =>
+                {
                     // End of the restart path's bookkeeping: the MPP wait starts now.
                     if !is_err {
                         e.restart_wait_done = true;
@@ -1522,7 +1572,7 @@ impl Oracles {
         let x = &e.hash;
         let now = w.now_ms;
         // ---- C07: a doomed set is failed (or settled from an earlier payment) ---------
-        if let Some((msg, dstep, why)) = &e.doomed {
+        if let (Some((msg, dstep, why)), false) = (&e.doomed, e.order_ambiguous) {
             self.hit("c07.doomed-set-decided");
             if let Answer::Resolve(_) = ans {
                 // Allowed only from a pre-existing completed payment; C01 checks the key.
@@ -1566,7 +1616,7 @@ impl Oracles {
         let store_free_at_fetch = matches!(&e.fetch_reply, Some(Ok(StoreKind::Free)) | Some(Ok(StoreKind::Absent)));
         if let Answer::Fail(m) = ans {
             let is_timeout = *m == rf::MSG_TEMP_TRAMPOLINE.to_vec();
-            if is_timeout && e.doomed.is_none() && !e.either && !e.pay_issued && !e.attempt_started {
+            if is_timeout && e.doomed.is_none() && !e.either && !e.order_ambiguous && !e.pay_issued && !e.attempt_started {
                 // An MPP-timeout failure of a set that was never funded.
                 if let (Some(ws), Some(left)) = (e.wait_start_ms, e.time_left_ms) {
                     if !e.timing_ambiguous {
@@ -1719,7 +1769,7 @@ impl Oracles {
             let mut late: Vec<H32> = Vec::new();
             let mut checked = 0;
             for (x, e) in self.entries.iter() {
-                if !e.funded || e.doomed.is_some() || e.either || e.attempt_started || e.first_answer.is_some() {
+                if !e.funded || e.doomed.is_some() || e.either || e.order_ambiguous || e.attempt_started || e.first_answer.is_some() {
                     continue;
                 }
                 if !matches!(&e.fetch_reply, Some(Ok(StoreKind::Free)) | Some(Ok(StoreKind::Absent))) {
@@ -1759,11 +1809,15 @@ impl Oracles {
         if !w.cfg.backpressure {
             let mut late: Vec<(H32, u64, u64)> = Vec::new();
             for (x, e) in self.entries.iter() {
-                if e.first_answer.is_some() || e.timing_ambiguous || e.attempt_started || e.pay_issued {
+                if e.first_answer.is_some() || e.timing_ambiguous || e.order_ambiguous || e.attempt_started || e.pay_issued {
                     continue;
                 }
                 if let (Some(ws), Some(left)) = (e.wait_start_ms, e.time_left_ms) {
-                    if !e.funded && w.now_ms > ws.saturating_add(left).saturating_add(SLACK_MS) && !w.node.live(x) {
+                    if !e.funded
+                        && w.now_ms > ws.saturating_add(left).saturating_add(SLACK_MS)
+                        && !w.node.live(x)
+                        && !w.node.outstanding_rpcs().any(|(_, r)| r.hash == Some(*x))
+                    {
                         late.push((*x, ws, left));
                     }
                 }
